@@ -564,3 +564,115 @@ def gen_dmrs_dense(k, kind, rng=None, pendants=True):
         rng.shuffle(nodes)
     top = (pids or ids)[-1]
     return {"top": top, "index": ids[0], "nodes": nodes, "links": links}
+
+
+# ---------------------------------------------------------------- individual constraints (round 6)
+# ICONS relate variables but are NOT part of connectedness ("label sharing, shared intrinsic
+# variables and arguments resolved through handle constraints").
+
+ICONS_RELS = ["topic", "focus", "info-str"]
+
+
+def _all_vars(m):
+    ivs, others, handles = [], [], []
+    for ep in m["rels"]:
+        if ep["label"] not in handles:
+            handles.append(ep["label"])
+        for r, v in ep["args"]:
+            if r == "ARG0":
+                if v not in ivs:
+                    ivs.append(v)
+            elif v[0] == "h":
+                if v not in handles:
+                    handles.append(v)
+            elif v not in others:
+                others.append(v)
+    for hi, _, lo in m["hcons"]:
+        for v in (hi, lo):
+            if v not in handles:
+                handles.append(v)
+    return ivs, [v for v in others if v not in ivs], handles
+
+
+def add_icons(rng, m, k=None):
+    """the same MRS with `k` (default 1-3) individual constraints: IV-IV, IV-argument-only variable,
+    a variable nobody uses, and (ill-sorted but accepted by the class) handles / labels"""
+    import copy
+    m = copy.deepcopy(m)
+    ivs, others, handles = _all_vars(m)
+    unused = [["x", 900], ["e", 901]]
+    if k is None:
+        k = rng.choice([1, 1, 2, 3])
+    for _ in range(k):
+        r = rng.random()
+        pool_l = ivs or unused
+        if r < 0.5:
+            left, right = rng.choice(pool_l), rng.choice(pool_l)
+        elif r < 0.65:
+            left, right = rng.choice(pool_l), rng.choice(others or unused)
+        elif r < 0.8:
+            left, right = rng.choice(pool_l), rng.choice(unused)
+        elif r < 0.9 and handles:
+            left, right = rng.choice(handles), rng.choice(handles)
+        else:
+            left, right = rng.choice(unused), rng.choice(pool_l)
+        m["icons"].append([left, rng.choice(ICONS_RELS), right])
+    return m
+
+
+def shift_vars(m, off):
+    """the same MRS with every variable id increased by `off` (disjoint copy)"""
+    import copy
+    m = copy.deepcopy(m)
+
+    def sh(v):
+        return None if v is None else [v[0], v[1] + off]
+    m["top"] = sh(m["top"])
+    m["index"] = sh(m["index"])
+    for ep in m["rels"]:
+        ep["label"] = sh(ep["label"])
+        ep["args"] = [[r, sh(v)] for r, v in ep["args"]]
+    m["hcons"] = [[sh(a), r, sh(b)] for a, r, b in m["hcons"]]
+    m["icons"] = [[sh(a), r, sh(b)] for a, r, b in m["icons"]]
+    m["vars"] = [[sh(v), ps] for v, ps in m["vars"]]
+    return m
+
+
+def gen_mrs_islands(rng, bridge=None):
+    """two constructively built scope trees over disjoint variables put into ONE MRS (top of the
+    first): otherwise disconnected components, related only by `bridge`:
+      'icons-iv'    icons between intrinsic variables of the two components
+      'icons-other' icons from an IV of one to an argument-only / unused variable, plus unused-unused
+      'icons-label' icons between labels of the two components
+      'hcons'       a handle constraint whose hi nobody selects and whose lo is a label of the other component
+      'top'         the top is qeq to a label of the second component (first not reachable from it)
+      'none'        nothing
+    (the second component's own top constraint stays as a dangling hcons in every variant)"""
+    a = gen_mrs_tree(rng, max_eps=4, mutual=0.0)
+    b = shift_vars(gen_mrs_tree(rng, max_eps=4, mutual=0.0), 500)
+    if bridge is None:
+        bridge = rng.choice(["icons-iv", "icons-iv", "icons-other", "icons-label", "hcons", "top", "none"])
+    m = {"top": a["top"], "index": a["index"], "rels": a["rels"] + b["rels"], "hcons": a["hcons"] + b["hcons"],
+         "icons": [], "vars": a["vars"] + b["vars"]}
+    iva = [v for ep in a["rels"] for r, v in ep["args"] if r == "ARG0"]
+    ivb = [v for ep in b["rels"] for r, v in ep["args"] if r == "ARG0"]
+    la = [ep["label"] for ep in a["rels"]]
+    lb = [ep["label"] for ep in b["rels"]]
+    if bridge == "icons-iv":
+        for _ in range(rng.choice([1, 2])):
+            x, y = rng.choice(iva), rng.choice(ivb)
+            m["icons"].append([x, rng.choice(ICONS_RELS), y] if rng.random() < 0.5 else [y, rng.choice(ICONS_RELS), x])
+    elif bridge == "icons-other":
+        m["icons"].append([rng.choice(iva), "topic", ["x", 900]])
+        m["icons"].append([["x", 900], "focus", rng.choice(ivb)])
+        m["icons"].append([["x", 901], "focus", ["e", 902]])
+    elif bridge == "icons-label":
+        m["icons"].append([rng.choice(la), "topic", rng.choice(lb)])
+    elif bridge == "hcons":
+        m["hcons"].append([["h", 950], "qeq", rng.choice(lb)])
+        m["hcons"].insert(0, [["h", 951], "qeq", rng.choice(la)])
+    elif bridge == "top":
+        m["hcons"] = [[hi, r, (rng.choice(lb) if hi == a["top"] else lo)] for hi, r, lo in m["hcons"]]
+    if rng.random() < 0.3:
+        rng.shuffle(m["rels"])
+    return m
